@@ -68,15 +68,40 @@ def decode_value(r):
 class TraceTaskQueue(queue.Queue):
     """task queue that logs task_done calls of worker threads (with the index of the task they took)."""
 
-    def __init__(self, log, loglock):
+    def __init__(self, log, loglock, race=False):
         queue.Queue.__init__(self)
         self.log, self.loglock = log, loglock
         self.local = threading.local()
+        # race mode (forced shutdown): a worker that asks for its SECOND task is held until the consumer has
+        # seen `not empty()` with exactly one task left; it then takes that task before the consumer's get
+        self.race = race
+        self.worker_gate = threading.Event()
+        self.takes = {}
+        self.raced = False
+
+    def _is_worker(self):
+        from mapproxy.util.async_ import ThreadWorker
+        return isinstance(threading.current_thread(), ThreadWorker)
 
     def get(self, *a, **kw):
+        if self.race and self._is_worker():
+            me = threading.get_ident()
+            if self.takes.get(me, 0) >= 1 and not self.raced:
+                self.worker_gate.wait(1.5)
+            self.takes[me] = self.takes.get(me, 0) + 1
         item = queue.Queue.get(self, *a, **kw)
         self.local.current = item[0] if isinstance(item, tuple) else None
         return item
+
+    def empty(self):
+        r = queue.Queue.empty(self)
+        if self.race and not r and not self.raced and not self._is_worker() and self.qsize() == 1:
+            self.raced = True
+            self.worker_gate.set()
+            deadline = time.time() + 0.5
+            while self.qsize() > 0 and time.time() < deadline:
+                time.sleep(0.002)
+        return r
 
     def task_done(self):
         cur = getattr(self.local, 'current', None)
@@ -128,7 +153,7 @@ def gen_arrival(rng, n, pool_size, mode):
     return arr
 
 
-def run_impl(api, pool_size, use_ro, items, arrival, slow_put=False):
+def run_impl(api, pool_size, use_ro, items, arrival, slow_put=False, race=False):
     """items: list of ('ok', v) / ('exc', e).  Returns (yielded list, raised ident or None, hang flag, worker trace).
     slow_put: every result_queue.put is held back until the consumer finished or a grace period passed."""
     from mapproxy.util.async_ import ThreadPool, AsyncResult
@@ -147,7 +172,7 @@ def run_impl(api, pool_size, use_ro, items, arrival, slow_put=False):
     trace, loglock = [], threading.Lock()
     gate = threading.Event() if (slow_put and not sequential) else None
     pool.result_queue = SignalQueue(trace, loglock, gate)
-    pool.task_queue = TraceTaskQueue(trace, loglock)
+    pool.task_queue = TraceTaskQueue(trace, loglock, race=race)
     out, raised, state = [], [None], {'done': False}
 
     def consume():
@@ -305,10 +330,21 @@ def run(ctx):
         ps = rng.choice([2, 3, 4, 6])
         items = [('ok', rng.choice([-1, -2, -3, 0, 5, 17, 40 + i])) for i in range(n)]
         cases.append(((rng.choice(['imap', 'starmap', 'starcall']), ps, rng.random() < 0.5, items, list(range(n))), True))
+    # forced-shutdown race: raise mode, first item fails, more items than workers; a worker takes the last
+    # queued task between the consumer's empty() test and its get() in _consume_queue
+    for k in range(ctx.n(6, 30)):
+        ps = rng.choice([2, 2, 3])
+        n = ps + rng.choice([2, 3, 4])
+        items = [('exc', 100)] + [('ok', 10 + i) for i in range(1, n)]
+        cases.append(((rng.choice(['imap', 'starmap', 'map']), ps, False, items, list(range(n))), 'race'))
     terms, descr = [], []
     for case, slow in cases:
         api, ps, use_ro, items, arrival = case
-        out, raised, hang, trace = run_impl(api, ps, use_ro, items, arrival, slow_put=slow)
+        race = slow == 'race'
+        slow = slow is True
+        if race:
+            ctx.count('forced_shutdown_race')
+        out, raised, hang, trace = run_impl(api, ps, use_ro, items, arrival, slow_put=slow, race=race)
         n = len(items)
         pool_path = not (ps < 2 or n == 1)
         if pool_path and raised is None and not hang:
@@ -354,3 +390,4 @@ def run(ctx):
         lambda i: descr[i])
     from props import c15_consumers
     c15_consumers.run(ctx)
+    c15_consumers.run_app_sequences(ctx)
